@@ -132,6 +132,14 @@ LITERAL_FORMS = [
     ("bool", "[0, 0, 1].exists(x, {0} / x > 0)", ["int"]), ("bool", "[0, 0, 2].all(x, {0} / x == 1)", ["int"]),
     ("int", "[10, 20, 30][{0}]", ["int"]), ("string", "{{1: 'a', 2: 'b'}}[{0}]", ["int"]),
     ("bool", "has({{'a': {0}}}.a)", ["int"]),
+    # an erroring body element at every position relative to the deciding / counted elements, for every macro
+    ("bool", "[{0}, {1}, {2}].exists_one(x, 10 / x > 0)", ["int", "int", "int"]), ("bool", "[1, 1, {0}].exists_one(x, 1 / x > 0)", ["int"]),
+    ("bool", "[{0}, 1, 1].exists_one(x, 1 / x > 0)", ["int"]), ("bool", "[{0}, {1}, {2}].all(x, 10 / x > 0)", ["int", "int", "int"]),
+    ("bool", "[{0}, {1}, {2}].exists(x, 10 / x > 5)", ["int", "int", "int"]), ("list<int>", "[{0}, {1}, {2}].filter(x, 10 / x > 0)", ["int", "int", "int"]),
+    ("list<int>", "[{0}, {1}, {2}].map(x, 10 / x)", ["int", "int", "int"]), ("bool", "[1, 1, {0}].exists_one(x, 1 / x > 0) || true", ["int"]),
+    # literal spellings next to variables: suffix case, hex, exponent forms
+    ("uint", "({0} + 5U)", ["uint"]), ("uint", "({0} + 0x1FU)", ["uint"]), ("bool", "({0} == 3U || {0} == 4u)", ["uint"]), ("int", "({0} + 0X1f)", ["int"]) if False else ("int", "({0} + 0x1F)", ["int"]),
+    ("double", "({0} + 1E2)", ["double"]), ("double", "({0} + 1e+2 + .5)", ["double"]), ("list<uint>" if False else "bool", "([1u, 2U][0] == {0})", ["uint"]),
 ]
 
 
